@@ -30,6 +30,12 @@ TSubF == Sc("tsub", <<>>, <<Stmt("R", TRUE, <<Par("phi")>>, <<>>, <<I(1)>>, "non
 \* a template whose parameters occur bare and inside expressions, in positional and keyword position (for calls with measured registers)
 RSubF == Sc("rsub", <<>>, <<Stmt("Zr", TRUE, <<FL(1, 10)>>, <<Kw("eps", Par("u"))>>, <<I(0)>>, "none"), Stmt("Rr", TRUE, <<Par("u")>>, <<>>, <<I(1)>>, "none"),
                             Stmt("Dr", TRUE, <<Bin("*", I(2), Par("g"))>>, <<Kw("h", Bin("+", Par("g"), Par("u")))>>, <<I(1)>>, "none")>>)
+\* a directory of the main script's directory that is a symbolic link to a directory elsewhere: w/vendor -> ext/vendor.  The library in it
+\* includes "../common.xbb": that is ext/common.xbb (program CommonExt), NOT the file w/common.xbb next to the link.
+LinkTarget7(d) == IF d = W \o <<"vendor">> THEN <<"ROOT", "ext", "vendor">> ELSE d
+Links == << [from |-> W \o <<"vendor">>, to |-> <<"ROOT", "ext", "vendor">>] >>
+VLibF == Sc("vlib", <<Rel(<<"..">>, "common.xbb")>>, <<Stmt("Hv", FALSE, <<>>, <<>>, <<I(0)>>, "none"), Call("CommonExt", <<I(2)>>)>>)
+CommonExtF == Sc("CommonExt", <<>>, <<Stmt("Ce", TRUE, <<I(5)>>, <<>>, <<I(7)>>, "none")>>)
 \* two different files that are both written as "common.xbb" in the include line of their including file
 CommonTopF == Sc("Common", <<>>, <<Stmt("Ct", FALSE, <<>>, <<>>, <<I(0), I(1)>>, "sq"), Stmt("Cu", TRUE, <<FL(1, 2)>>, <<>>, <<I(1)>>, "none")>>)
 CommonLibF == Sc("CommonLib", <<>>, <<Stmt("Cl", TRUE, <<I(7)>>, <<>>, <<I(4)>>, "none")>>)
@@ -42,6 +48,8 @@ UtilF == Sc("util", <<Rel(<<"..", "w", "sub">>, "inner.xbb")>>, <<Stmt("U", TRUE
 FS7(f) == CASE f = [dirs |-> W, file |-> "sub.xbb"] -> SubF
             [] f = [dirs |-> W, file |-> "tsub.xbb"] -> TSubF
             [] f = [dirs |-> W, file |-> "rsub.xbb"] -> RSubF
+            [] f = [dirs |-> <<"ROOT", "ext", "vendor">>, file |-> "vlib.xbb"] -> VLibF
+            [] f = [dirs |-> <<"ROOT", "ext">>, file |-> "common.xbb"] -> CommonExtF
             [] f = [dirs |-> W \o <<"sub">>, file |-> "inner.xbb"] -> InnerF
             [] f = [dirs |-> W, file |-> "outer.xbb"] -> OuterF
             [] f = [dirs |-> <<"ROOT", "lib">>, file |-> "util.xbb"] -> UtilF
@@ -51,7 +59,8 @@ FS7(f) == CASE f = [dirs |-> W, file |-> "sub.xbb"] -> SubF
             [] f = [dirs |-> W \o <<"lib2">>, file |-> "common.xbb"] -> CommonLib2F
             [] f = [dirs |-> W \o <<"lib2">>, file |-> "chip2.xbb"] -> Chip2F
             [] OTHER -> NoFile
-Files == << [path |-> [dirs |-> W, file |-> "rsub.xbb"], s |-> RSubF], [path |-> [dirs |-> W, file |-> "sub.xbb"], s |-> SubF], [path |-> [dirs |-> W, file |-> "tsub.xbb"], s |-> TSubF],
+Files == << [path |-> [dirs |-> <<"ROOT", "ext", "vendor">>, file |-> "vlib.xbb"], s |-> VLibF], [path |-> [dirs |-> <<"ROOT", "ext">>, file |-> "common.xbb"], s |-> CommonExtF],
+            [path |-> [dirs |-> W, file |-> "rsub.xbb"], s |-> RSubF], [path |-> [dirs |-> W, file |-> "sub.xbb"], s |-> SubF], [path |-> [dirs |-> W, file |-> "tsub.xbb"], s |-> TSubF],
             [path |-> [dirs |-> W \o <<"sub">>, file |-> "inner.xbb"], s |-> InnerF], [path |-> [dirs |-> W, file |-> "outer.xbb"], s |-> OuterF],
             [path |-> [dirs |-> <<"ROOT", "lib">>, file |-> "util.xbb"], s |-> UtilF],
             [path |-> [dirs |-> W, file |-> "common.xbb"], s |-> CommonTopF], [path |-> [dirs |-> W \o <<"lib">>, file |-> "common.xbb"], s |-> CommonLibF],
@@ -67,9 +76,10 @@ Mains == { Sc("m1", <<Rel(<<>>, "sub.xbb")>>, <<>>),
            Sc("m7", <<Rel(<<"lib">>, "chip.xbb"), Rel(<<>>, "common.xbb")>>, <<>>),      \* nested "common.xbb" and an own "common.xbb": different files
            Sc("m8", <<Rel(<<"lib2">>, "chip2.xbb"), Rel(<<>>, "common.xbb")>>, <<>>),    \* ... that also declare the same program name
            Sc("m9", <<Rel(<<>>, "common.xbb"), Rel(<<"lib2">>, "chip2.xbb")>>, <<>>),
-           Sc("m10", <<Rel(<<>>, "rsub.xbb"), Rel(<<>>, "tsub.xbb")>>, <<>>) }   \* the opposite order
+           Sc("m10", <<Rel(<<>>, "rsub.xbb"), Rel(<<>>, "tsub.xbb")>>, <<>>),
+           Sc("m11", <<Rel(<<"vendor">>, "vlib.xbb"), Rel(<<>>, "common.xbb")>>, <<>>) }     \* through the symbolic link; and the decoy next to it   \* the opposite order
 \* quick tier: pairs of items under the layouts that exercise distinct mechanisms, single items under all of them
-MainsQuick == {m \in Mains : m.name \in {"m2", "m4", "m5", "m8", "m10"}}
+MainsQuick == {m \in Mains : m.name \in {"m2", "m5", "m8", "m10", "m11"}}
 GoodItems == { Call("sub", <<I(0), I(1), I(2)>>), Call("sub", <<I(5), I(4), I(7)>>),
            Call("Common", <<I(6), I(7)>>), Call("chip", <<I(1), I(0), I(3)>>), Call("chip2", <<I(2), I(4)>>), Call("CommonLib", <<I(5)>>),
            \* template parameters of the including script handed down, also under swapped names
@@ -81,6 +91,7 @@ GoodItems == { Call("sub", <<I(0), I(1), I(2)>>), Call("sub", <<I(5), I(4), I(7)
            CallK("tsub", <<Kw("phi", [t |-> "neg", a |-> I(1)]), Kw("th", I(1))>>, <<I(0), I(2)>>),
            CallK("tsub", <<Kw("phi", [t |-> "neg", a |-> I(2)]), Kw("th", I(1))>>, <<I(2), I(0)>>),
            CallK("tsub", <<Kw("phi", [t |-> "neg", a |-> I(2)]), Kw("th", FL(1, 1))>>, <<I(1), I(3)>>),
+           Call("vlib", <<I(3), I(1)>>), Call("CommonExt", <<I(6)>>),
            \* measured registers handed to a template: bare, inside an expression, next to a number
            CallK("rsub", <<Kw("u", [t |-> "reg", n |-> 3]), Kw("g", FL(1, 2))>>, <<I(4), I(7)>>),
            CallK("rsub", <<Kw("u", Bin("*", I(2), [t |-> "reg", n |-> 3])), Kw("g", [t |-> "reg", n |-> 1])>>, <<I(5), I(6)>>),
@@ -158,6 +169,6 @@ EmitAll == Over => LET cu == CanUnroll(script)
                        refused == (cu /\ ~wf) => S.res.k = "raise"
                    IN PrintT(<<"CASE", ToJson([s |-> script, out |-> S.res, inl |-> inl, inlining |-> inlining, refused |-> refused])>>)
 EmitPlain == Over => PrintT(<<"CASE", ToJson([s |-> script, out |-> S.res])>>)       \* the single prediction only (C19)
-EmitFiles == PrintT(<<"FILES", ToJson(Files)>>)
+EmitFiles == PrintT(<<"FILES", ToJson(Files)>>) /\ PrintT(<<"LINKS", ToJson(Links)>>)
 ASSUME EmitFiles
 =============================================================================
